@@ -1073,6 +1073,9 @@ class BranchCascade(object):
             # remember if a stab is attached before it is removed
             # from path, for the correct target_version computation
             if stb_branch:
+                if dev_branch is None:
+                    raise errors.DevBranchDoesNotExist(
+                        'development/%d.%d' % (major, minor))
                 dev_branch.has_stabilization = True
 
             # remove untargetted branches from cascade
